@@ -178,6 +178,16 @@ class Program:
         return c[0]
 
 
+class Opaque:
+    """result of a call outside the subset (I/O, error plumbing): nothing is known about it."""
+
+    def __init__(self, what):
+        self.what = what
+
+    def __repr__(self):
+        return "Opaque(%s)" % self.what
+
+
 class Obligation:
     def __init__(self, kind, pc, cond, where, msg):
         self.kind, self.pc, self.cond, self.where, self.msg = kind, pc, cond, where, msg
@@ -197,6 +207,8 @@ class Exec:
         self.fresh = 0
         self.encoded = set()
         self.range_constraints = []
+        self.calls = []     # (pc, callee, [arg values]) of opaque calls, in execution order
+        self.allow_opaque = False
 
     # ---- values ---------------------------------------------------------------------------
     def mk_input(self, name, ty):
@@ -296,6 +308,8 @@ class Exec:
         m = re.match(r"const ([\w:<>]+)$", op)
         if m:
             return self.named_const(m.group(1))[0]
+        if self.allow_opaque:
+            return Opaque(op)
         raise Unsupported("operand " + op)
 
     def operand_ty(self, f, op):
@@ -317,9 +331,13 @@ class Exec:
         m = re.match(r"\((_\d+)\.(\d+): (.+)\)$", place)
         if m:
             v = env.get(m.group(1))
+            if isinstance(v, Opaque):
+                return Opaque(place)
             if not isinstance(v, tuple):
                 raise Unsupported("field of non-tuple " + place)
             return v[int(m.group(2))]
+        if self.allow_opaque and re.match(r"\(\((_\d+) as \w+\)\.\d+: .+\)$", place):
+            return Opaque(place)
         if place not in env:
             raise Unsupported("read of unset " + place)
         return env[place]
@@ -423,6 +441,20 @@ class Exec:
         m = re.match(r"\((.+), (.+)\)$", rv)
         if m and not rv.startswith("(_"):
             return (self.operand(f, env, m.group(1)), self.operand(f, env, m.group(2)))
+        if self.allow_opaque:
+            m = re.match(r"discriminant\((_\d+)\)$", rv)
+            if m:
+                self.fresh += 1
+                return ("discr", z3.Int("discr_%d" % self.fresh))
+            # aggregates: `Name(op, ..)`, `Enum::<..>::Variant(op, ..)`
+            m = re.match(r"([A-Za-z_][\w:<>, ()]*?)\((.*)\)$", rv)
+            if m and not re.match(r"(copy|move|const)\b", rv):
+                name = m.group(1)
+                ops = [self.operand(f, env, a) for a in self._split_args(m.group(2))] if m.group(2).strip() else []
+                variant = name.split("::")[-1]
+                if variant in ("Ok", "Err", "Some"):
+                    return (variant, tuple(ops))
+                return tuple(ops)
         return self.operand(f, env, rv)
 
     # ---- control flow ---------------------------------------------------------------------
@@ -471,8 +503,16 @@ class Exec:
         m = re.match(r"switchInt\((.+)\) -> \[(.+)\];", t)
         if m:
             v = self.operand(f, env, m.group(1))
-            ty = self.operand_ty(f, m.group(1))
             arms = [a.strip() for a in m.group(2).split(",")]
+            if isinstance(v, tuple) and len(v) == 2 and v[0] == "discr":
+                # discriminant of an opaque value: every listed variant is possible, `otherwise` is not
+                for a in arms:
+                    k, tgt = [x.strip() for x in a.split(":")]
+                    if k == "otherwise":
+                        continue
+                    self._block(f, tgt, env, z3.And(pc, v[1] == int(k)), visits, on_return)
+                return
+            ty = self.operand_ty(f, m.group(1))
             taken = []
             for a in arms:
                 k, tgt = [x.strip() for x in a.split(":")]
@@ -497,14 +537,25 @@ class Exec:
                 c = z3.Not(c)
             self.obligations.append(Obligation("assert", pc, c, "%s:%s" % (f.name, bb), m.group(3)))
             return self._block(f, m.group(4), env, z3.And(pc, c), visits, on_return)
-        m = re.match(r"(_\d+) = (.+?)\((.*)\) -> \[return: (bb\d+), unwind[^\]]*\];", t)
+        m = None
+        if " -> [return: " in t and re.match(r"(_\d+) = ", t):
+            from mirsmt.pathsmt import split_call
+            sc = split_call(t)
+            rm = re.match(r"-> \[return: (bb\d+)", sc[3]) if sc else None
+            if sc and rm:
+                m = (sc[0], sc[1], sc[2], rm.group(1))
         if m:
-            dst, callee, argstr, nxt = m.groups()
+            dst, callee, argstr, nxt = m
             argv = [self.operand(f, env, a) for a in self._split_args(argstr)] if argstr.strip() else []
             cal = self._resolve(callee)
+            if cal is None and self.allow_opaque:
+                self.calls.append((pc, callee, argv))
+                env[dst] = Opaque(callee)
+                return self._block(f, nxt, env, pc, visits, on_return)
             if cal is None:
                 raise Unsupported("call to %s in %s" % (callee, f.name))
             if callable(cal):
+                self._cur_pc = pc
                 env[dst] = cal(self, argv)
                 return self._block(f, nxt, env, pc, visits, on_return)
             self.encoded.add(cal.name + (" @ " + cal.file if cal.file else ""))
@@ -565,7 +616,24 @@ def _max(ex, a):
     return z3.If(x >= y, x, y)
 
 
+def _next_multiple_of(ex, a):
+    x, y = a
+    if ex.mode == "bv":
+        r = z3.URem(x, y)
+        add = z3.If(r == 0, z3.BitVecVal(0, x.size()), y - r)
+        w = x.size()
+        full = z3.ZeroExt(1, x) + z3.ZeroExt(1, add)
+        # with overflow checks on, next_multiple_of panics on overflow
+        ex.obligations.append(Obligation("assert", ex._cur_pc, z3.Extract(w, w, full) == 0, "next_multiple_of", "next_multiple_of overflow"))
+        return x + add
+    r = x % y
+    res = z3.If(r == 0, x, x + (y - r))
+    ex.obligations.append(Obligation("assert", ex._cur_pc, res < (1 << 32), "next_multiple_of", "next_multiple_of overflow (u32)"))
+    return res
+
+
 INTRINSICS = {
+    "core::num::<impl u32>::next_multiple_of": _next_multiple_of,
     "std::cmp::min::<usize>": _min, "std::cmp::max::<usize>": _max,
     "std::cmp::min::<u32>": _min, "std::cmp::max::<u32>": _max,
     "std::cmp::min::<u64>": _min, "std::cmp::max::<u64>": _max,
